@@ -2020,7 +2020,7 @@ impl SubRule {
                 // if we have a full match
                 if state_index > self.input.len() - 1 { 
                     // As matching a syllbound doesn't increment, this is to avoid an infinite loop
-                    if self.input.last().unwrap().kind == ParseElement::SyllBound {
+                    if let Some(MatchElement::SyllBound(..)) = captures.last() {
                         cur_index.increment(word);
                     }
                     return Ok((captures, Some(cur_index)));
